@@ -225,6 +225,14 @@ async fn batch_boundary(net: &Net, k: u64) -> Case {
     r.case("C03Case", "batch_boundary", f, json!({"rows_of_the_day": k, "harness_seconds": t0.elapsed().as_secs_f64()}))
 }
 
+/// a removed reference and a later version of its source row fetched together with new rows
+async fn removed_ref(net: &Net) -> Case {
+    let mut r = Runner::new(net, 2).await;
+    removed_ref_history(&mut r, 1, false, false).await;
+    let f = r.settle(T0 + 3 * DAY, 5).await;
+    r.case("C03Case", "removed_ref", f, json!({}))
+}
+
 async fn random_case(net: &Net, rng: &mut Rng, deletions: bool) -> Case {
     let n = 2 + rng.below(3) as usize;
     let mut r = Runner::new(net, n).await;
@@ -277,6 +285,7 @@ async fn main() {
     out.push(concurrent_refs(&net, true).await);
     out.push(ref_readd(&net).await);
     out.push(same_ref(&net).await);
+    out.push(removed_ref(&net).await);
     for _ in 0..scale(14, 300) {
         let mut r = rng.fork();
         out.push(refs_case(&net, &mut r).await);
